@@ -58,15 +58,19 @@ def strategy(tier):
         st.fixed_dictionaries({"op": st.just("add"), "name": st.just("big.bin"), "size": st.just(17000000), "seed": st.just(0), "sparse": st.just(True)}),
         st.fixed_dictionaries({"op": st.just("delete"), "k": st.integers(0, 9)}),
         st.fixed_dictionaries({"op": st.just("resize"), "k": st.integers(0, 9), "size": st.sampled_from([0, 1, 777, 16384, 16385, 33000])}),
-        st.fixed_dictionaries({"op": st.just("rewrite"), "k": st.integers(0, 9), "seed": st.integers(100, 199)}),
+        st.fixed_dictionaries({"op": st.just("rewrite"), "k": st.integers(0, 9), "seed": st.integers(100, 199),
+                               "keep_mtime": st.sampled_from([False, True])}),
+        # one byte changed in place, optionally with the old timestamps put back (cp -p, rsync -t, bit rot)
+        st.fixed_dictionaries({"op": st.just("flip"), "k": st.integers(0, 9), "at": st.integers(0, 40000),
+                               "keep_mtime": st.sampled_from([False, True, True])}),
         st.fixed_dictionaries({"op": st.just("restore"), "k": st.integers(0, 9)}),
     )
     tfop = st.one_of(
         st.fixed_dictionaries({"op": st.just("create"), "ver": st.sampled_from(["1", "2", "3"]), "route": st.sampled_from(["lib", "cli"]),
                                "target": st.sampled_from(["dir", "dir", "dir", "file"]), "k": st.integers(0, 9),
-                               "auto": st.sampled_from([False, False, True])}),
-        st.fixed_dictionaries({"op": st.just("create"), "ver": st.sampled_from(["1", "2", "3"]), "route": st.sampled_from(["lib", "cli"]),
-                               "target": st.just("dir"), "k": st.just(0)}),
+                               "auto": st.sampled_from([False, False, True]), "pexp": st.sampled_from([14, 14, 15, 16])}),
+        st.fixed_dictionaries({"op": st.just("create"), "ver": st.sampled_from(["1", "2", "3"]), "route": st.sampled_from(["lib", "cli", "lib-class"]),
+                               "target": st.just("dir"), "k": st.just(0), "pexp": st.sampled_from([14, 15, 16])}),
         st.fixed_dictionaries({"op": st.just("recheck"), "m": st.integers(0, 9), "content": st.sampled_from(["root", "parent"])}),
         st.fixed_dictionaries({"op": st.just("edit"), "m": st.integers(0, 9), "req": edits.edit_request()}),
         st.fixed_dictionaries({"op": st.just("magnet"), "m": st.integers(0, 9)}),
@@ -98,12 +102,15 @@ def perform(req):
     try:
         if op == "create":
             out = req["out"]
-            if req["route"] == "lib":
+            pexp = req.get("pexp", 14)
+            if req["route"] in ("lib", "lib-class"):
                 creator = {"1": "TorrentFile", "2": "Assembler2", "3": "Assembler3"}[req["ver"]]
-                kw = {} if req.get("auto") else {"piece_length": 16384}
+                if req["route"] == "lib-class":     # the class-based creators (HasherV2 / HasherHybrid)
+                    creator = {"1": "TorrentFile", "2": "TorrentFileV2", "3": "TorrentFileHybrid"}[req["ver"]]
+                kw = {} if req.get("auto") else {"piece_length": 1 << pexp}
                 target.create_lib(creator, req["path"], out, **kw)
             else:
-                pl = [] if req.get("auto") else ["--piece-length", "14"]
+                pl = [] if req.get("auto") else ["--piece-length", str(pexp)]
                 target.execute(["create", "--meta-version", req["ver"], "-o", out, "--prog", "0"] + pl + [req["path"]])
             return _meta_obs(out)
         if op == "recheck":
@@ -165,7 +172,7 @@ def run_case(case):
         last_mut = None
         for i, step in enumerate(case["steps"]):
             op = step["op"]
-            if op in ("add", "delete", "resize", "rewrite", "restore"):
+            if op in ("add", "delete", "resize", "rewrite", "restore", "flip"):
                 if op == "add":
                     if step["name"] in files:
                         continue
@@ -197,10 +204,25 @@ def run_case(case):
                                 fd.truncate(origin[name][0])
                             else:
                                 fd.write(sandbox.content("nz", origin[name][1], origin[name][0]))
+                    elif op == "flip":
+                        size = os.path.getsize(p)
+                        if size == 0:
+                            continue
+                        st0 = os.stat(p)
+                        with open(p, "r+b") as fd:
+                            fd.seek(step["at"] % size)
+                            b0 = fd.read(1)
+                            fd.seek(step["at"] % size)
+                            fd.write(bytes([b0[0] ^ 0x5A]))
+                        if step.get("keep_mtime"):
+                            os.utime(p, ns=(st0.st_atime_ns, st0.st_mtime_ns))
                     else:
                         size = os.path.getsize(p)
-                        with open(p, "wb") as fd:
+                        st0 = os.stat(p)
+                        with open(p, "r+b") as fd:      # in place: same inode, same length
                             fd.write(sandbox.content("nz", step["seed"], size))
+                        if step.get("keep_mtime"):
+                            os.utime(p, ns=(st0.st_atime_ns, st0.st_mtime_ns))
                 last_mut = op
                 for t in touched:
                     if t == pay or t == os.path.join(pay, name):
@@ -213,7 +235,8 @@ def run_case(case):
                     tpath = os.path.join(pay, files[step["k"] % len(files)])
                 else:
                     tpath = pay
-                req.update({"ver": step["ver"], "route": step["route"], "path": tpath, "auto": step.get("auto", False)})
+                req.update({"ver": step["ver"], "route": step["route"], "path": tpath, "auto": step.get("auto", False),
+                            "pexp": step.get("pexp", 14)})
                 key = tpath
             else:
                 if not metas:
